@@ -704,3 +704,58 @@ pub fn check_br_table_case(c: &Case) -> Vec<Violation> {
     }
     v
 }
+
+
+// ---- building with a signature that was deleted before ------------------------------------------
+// `types.add(sig)`, `types.delete(id)` (or gc dropping the last user), then `FunctionBuilder::new`
+// with that same signature: the built function is emitted with exactly that signature.
+
+pub fn resurrected_type_cases() -> Vec<Case> {
+    ["delete", "gc"].iter().map(|w| Case { family: "builder-after-type-removal".into(), coords: format!("signature removed by {} and then built with", w), wasm: vec![], cfg: json!({"resurrected_type": w}) }).collect()
+}
+
+pub fn check_resurrected_type_case(c: &Case) -> Vec<Violation> {
+    let how = c.cfg["resurrected_type"].as_str().unwrap_or("delete").to_string();
+    let mut v = vec![];
+    let built = catch_unwind(AssertUnwindSafe(|| -> Result<Vec<u8>, String> {
+        let wasm = wgen::stateful::assemble(r#"(module (func $helper (param i32 i64) (result i64) (local.get 1)) (func (export "keep") (nop)))"#)?;
+        let mut m = Module::from_buffer(&wasm).map_err(|e| e.to_string())?;
+        if how == "gc" {
+            walrus::passes::gc::run(&mut m);
+        } else {
+            let f = m.funcs.iter().find(|f| m.types.get(f.ty()).params().len() == 2).map(|f| (f.id(), f.ty())).ok_or("no helper")?;
+            m.funcs.delete(f.0);
+            m.types.delete(f.1);
+        }
+        let mut b = FunctionBuilder::new(&mut m.types, &[ValType::I32, ValType::I64], &[ValType::I64]);
+        let a0 = m.locals.add(ValType::I32);
+        let a1 = m.locals.add(ValType::I64);
+        b.func_body().local_get(a1);
+        let fid = b.finish(vec![a0, a1], &mut m.funcs);
+        m.exports.add("subject", fid);
+        Ok(m.emit_wasm())
+    }));
+    let out = match built {
+        Ok(Ok(o)) => o,
+        Ok(Err(e)) => {
+            v.push(Violation::new("C15", "builder-census-rejected:type-removal", e, c));
+            return v;
+        }
+        Err(p) => {
+            v.push(Violation::new("C15", format!("builder-census-panic:{}", crate::pipe::norm_panic(&panic_msg(p))), format!("a function built with a signature that was removed ({}) before does not reach the output", how), c));
+            return v;
+        }
+    };
+    if let Err(e) = wmodel::validate214(&out, wmodel::FeatureSet::DEFAULT) {
+        v.push(Violation::new("C15", "builder-census-invalid:type-removal", e, c));
+        return v;
+    }
+    if let Ok(w) = wmodel::decode(&out) {
+        let sig = w.exports.iter().find(|e| e.name == "subject" && e.space == Space::Func).and_then(|e| w.funcs.get(e.index as usize)).and_then(|f| w.types.get(f.ty as usize).cloned().flatten());
+        let want = wmodel::FuncSig { params: vec![wmodel::VT::I32, wmodel::VT::I64], results: vec![wmodel::VT::I64] };
+        if sig.as_ref() != Some(&want) {
+            v.push(Violation::new("C15", "builder-signature-wrong-after-type-removal", format!("built (i32, i64) -> i64, emitted {:?}", sig), c));
+        }
+    }
+    v
+}
